@@ -58,6 +58,9 @@ func (m *Message) UnmarshalJSONValue(jm json.RawMessage) error {
 		}
 		// TODO: we need to cleanup generic data type handling somewhen to prevent such hacks
 		if m.DataType == Timestamp {
+			if reflect.ValueOf(tmp).Kind() != reflect.Ptr {
+				return fmt.Errorf("could not convert value '%s' for data type %s", jm, m.DataType)
+			}
 			m.Value = reflect.ValueOf(tmp).Elem().Interface()
 		} else {
 			m.Value = tmp
